@@ -59,7 +59,8 @@ async fn vf_order_latch_and_statuses() {
     // chain: app uses lib, lib uses base (so groups are [base], [lib], [app]) plus an independent `side` (in the first group);
     // dependencies are SLOWER than dependents. Commands: first, second.
     let (mut checked, mut bad) = (0u64, 0u64);
-    for fail in [None, Some(("first", "lib", 3)), Some(("first", "base", 7)), Some(("second", "app", 1))] {
+    // an injected code of -9 means: the process kills itself with SIGKILL (no exit code at all)
+    for fail in [None, Some(("first", "lib", 3)), Some(("first", "base", 7)), Some(("second", "app", 1)), Some(("first", "lib", -9)), Some(("second", "base", -9))] {
         checked += 1;
         let td = crate::core::testing::new_testdir().unwrap();
         let wp = td.path();
@@ -69,7 +70,7 @@ async fn vf_order_latch_and_statuses() {
             for c in ["first", "second"] {
                 let delay = match t { "base" => "0.30", "lib" => "0.15", _ => "0.01" };
                 let code = match fail { Some((fc, ft, code)) if fc == c && ft == t => code, _ => 0 };
-                script(&wp.join(t).join("monorail/cmd"), &format!("{}.sh", c), &format!("echo \"S {c} {t}\" >> '{tr}'\nsleep {d}\necho \"E {c} {t}\" >> '{tr}'\nexit {code}", c = c, t = t, tr = trace.display(), d = delay, code = code));
+                script(&wp.join(t).join("monorail/cmd"), &format!("{}.sh", c), &(if code == -9 { format!("echo \"S {c} {t}\" >> '{tr}'\nsleep {d}\nkill -9 $$\nsleep 5", c = c, t = t, tr = trace.display(), d = delay) } else { format!("echo \"S {c} {t}\" >> '{tr}'\nsleep {d}\necho \"E {c} {t}\" >> '{tr}'\nexit {code}", c = c, t = t, tr = trace.display(), d = delay, code = code) }));
             }
         }
         let cfg: core::Config = serde_json::from_str(r#"{"targets":[{"path":"app","uses":["lib"]},{"path":"side"},{"path":"lib","uses":["base"]},{"path":"base"}]}"#).unwrap();
@@ -104,7 +105,8 @@ async fn vf_order_latch_and_statuses() {
                     let gidx = |t: &str| crr.target_groups.iter().position(|g| g.contains_key(t)).unwrap_or(usize::MAX);
                     for (k, c, t) in tr.iter() { if k == "S" && (cidx(c) > cidx(fc) || (c == fc && gidx(t) > gidx(ft) && gidx(t) != usize::MAX)) { why = Some(format!("`{} {}` was started after `{} {}` had failed (C06)", c, t, fc, ft)); } }
                     let trr = crr.target_groups.iter().find_map(|g| g.get(ft));
-                    if !matches!(trr, Some(r) if r.status == RunStatus::Error && r.code == Some(code)) { why = Some(format!("the failing entry `{} {}` is not reported as error with code {} (C06)", fc, ft, code)); }
+                    if code == -9 { if !matches!(trr, Some(r) if r.status == RunStatus::Error && r.code.is_none()) { why = Some(format!("the entry `{} {}` of a process killed by SIGKILL is reported as {:?}; it did not run to completion and has no exit code (C06)", fc, ft, trr.map(|r| (format!("{:?}", r.status), r.code)))); } }
+                    else if !matches!(trr, Some(r) if r.status == RunStatus::Error && r.code == Some(code)) { why = Some(format!("the failing entry `{} {}` is not reported as error with code {} (C06)", fc, ft, code)); }
                 }
                 for (ci, crr) in out.results.iter().enumerate() {
                     let cname = if ci == 0 { "first" } else { "second" };
@@ -161,7 +163,7 @@ async fn vf_listener_failures_at_connect() {
         };
         let cfg: core::Config = serde_json::from_str(&format!("{{\"targets\":[{{\"path\":\"t1\"}}],\"server\":{{\"log\":{{\"port\":{}}},\"lock\":{{}}}}}}", port)).unwrap();
         let cmd = "hello".to_string();
-        let o = handle_run(&cfg, &input(vec![&cmd]), "x", wp).await;
+        let o = match tokio::time::timeout(std::time::Duration::from_secs(20), handle_run(&cfg, &input(vec![&cmd]), "x", wp)).await { Ok(o) => o, Err(_) => Err(MonorailError::from("the run did not return within 20 s")) };
         let ok = matches!(&o, Ok(out) if !out.failed);
         if !ok {
             bad += 1;
